@@ -9,6 +9,7 @@ IDS=${@:-$(ls seeded | grep -E '^C[0-9]+-[0-9]+$')}
 exec 9>/tmp/seed-confirm.lock; flock 9
 for S in $IDS; do
   P=${S%-*}
+  if grep -q neutralised_by_fix seeded/$S/meta.json 2>/dev/null; then echo "$S NEUTRALISED by a later fix of the tree (see its meta.json): skipped"; continue; fi
   WT=/tmp/wt-seedrun-$S
   git -C /repo worktree remove --force $WT >/dev/null 2>&1
   git -C /repo worktree add -q --detach $WT HEAD || { echo "$S worktree failed"; continue; }
